@@ -8,12 +8,14 @@ open PGA PGA.Spec PGA.Scheme PGA.Match
 
 variable {π : Nat → Nat} {a a' : Mol}
 
-theorem neighbours_relabel (iso : MolIso π a a') (i : Nat) : neighbours a' (π i) = (neighbours a i).map π := by
+theorem neighbours_relabel (iso : MolIso π a a') (i : Nat) : (neighbours a' (π i)).Perm ((neighbours a i).map π) := by
   unfold neighbours Mol.bondsOf
-  rw [iso.bonds, List.filter_map, List.map_map, List.map_map]
+  refine ((iso.bonds.filter _).map _).trans ?_
+  rw [List.filter_map, List.map_map, List.map_map]
   have e1 : ((fun e : Bond => e.touches (π i)) ∘ relabelBond π) = fun e : Bond => e.touches i := by
     funext e; exact touches_relabel iso.inj e i
   rw [e1]
+  apply List.Perm.of_eq
   apply List.map_congr_left
   intro e _
   simp only [Function.comp]
@@ -46,7 +48,7 @@ theorem embeds_preimage (iso : MolIso π a a') (q : Query) (f' : List Nat) (E : 
 
 theorem embeds_iso (iso : MolIso π a a') (ha : a.wf = true) (q : Query) (f : List Nat) (hf : ∀ x ∈ f, x < a.natoms) :
     Embeds q a' (f.map π) ↔ Embeds q a f :=
-  (iso.openMap ha).embeds q f hf (fun p _ => iso.molPrefix p)
+  (iso.openMap ha (iso.wf ha)).embeds q f hf (fun p _ => iso.molPrefix p)
 
 theorem toInput_relabel (S : SchemeDef) (iso : MolIso π a a') (ha : a.wf = true) (ha' : a'.wf = true)
     (hq : S.wf = true) (hs : S.noStar = true) (hcap : maxRaw S a < maxMatches) (hcap' : maxRaw S a' < maxMatches) :
@@ -73,7 +75,7 @@ theorem toInput_relabel (S : SchemeDef) (iso : MolIso π a a') (ha : a.wf = true
     · have hi' : π i < a'.natoms := by rw [iso.natoms]; exact (iso.range i).2 hi
       have e1 : ((List.range a'.natoms).map (neighbours a')).getD (π i) [] = neighbours a' (π i) := by simp [List.getD, hi']
       have e2 : ((List.range a.natoms).map (neighbours a)).getD i [] = neighbours a i := by simp [List.getD, hi]
-      rw [e1, e2, neighbours_relabel iso i]
+      rw [e1, e2]; exact neighbours_relabel iso i
     · have hi' : ¬ π i < a'.natoms := by rw [iso.natoms]; exact fun hh => hi ((iso.range i).1 hh)
       have e1 : ((List.range a'.natoms).map (neighbours a')).getD (π i) [] = [] := by simp [List.getD, hi']
       have e2 : ((List.range a.natoms).map (neighbours a)).getD i [] = [] := by simp [List.getD, hi]
